@@ -182,6 +182,16 @@ def isDisjoint (a b : Treemap) : Bool :=
     | (some c1, some c2) => o.isDisjoint c1 c2
     | _ => true
 
+/-- cmp.rs:37-41 `is_disjoint`, **step for step**: `.filter(|&(c1, c2)| c1.is_some() && c2.is_some())` and then
+    `.all(|(c1, c2)| c1.unwrap().is_disjoint(c2.unwrap()))` (`isDisjoint` above fuses the two adaptors into one
+    `all`; `isDisjointMirror_eq`, Lemmas/TreemapMirror.lean).  The `_` arm is the `.unwrap()` on `None`, which
+    the filter excludes. -/
+def isDisjointMirror (a b : Treemap) : Bool :=
+  ((pairs a b).filter fun p => p.1.isSome && p.2.isSome).all fun p =>
+    match p.1, p.2 with
+    | some c1, some c2 => o.isDisjoint c1 c2
+    | _, _ => true
+
 /-- the `for pair in self.pairs(other)` loop of `is_subset` (cmp.rs:65) -/
 def isSubsetLoop : List (Option Bitmap × Option Bitmap) → Bool
   | [] => true
@@ -279,6 +289,22 @@ def orderedMultiOwned (op : List Bitmap → Bitmap) : List Treemap → Treemap
       let nb := op (cur :: others.map fun t => (get t k).getD Bitmap.new)
       if !Bitmap.isEmpty nb then insertKV acc k nb else acc) first
 
+/-- multiops.rs:124 `try_ordered_multi_op_owned`, **with the effect on the other operands**: line 143
+    `treemaps.iter_mut().map(|treemap| treemap.map.remove(&k).unwrap_or_default())` *removes* partition `k` from
+    every other operand (as far as the 32-bit multi-op consumes its input; all of them here), so later iterations
+    look keys up in the shrunken maps.  `orderedMultiOwned` above looks them up in the untouched operands; the two
+    agree because a `BTreeMap`'s keys are distinct, so no key is looked up after it has been removed
+    (`orderedMultiOwnedMirror_eq`, Lemmas/TreemapMirror.lean). -/
+def orderedMultiOwnedMirror (op : List Bitmap → Bitmap) : List Treemap → Treemap
+  | [] => []
+  | first :: others =>
+    ((first.map (·.1)).foldl (fun (st : Treemap × List Treemap) k =>
+      let cur := (get st.1 k).getD Bitmap.new                 -- `treemap.map.remove(&k).unwrap()`
+      let acc := removeK st.1 k
+      let nb := op (cur :: st.2.map fun t => (get t k).getD Bitmap.new)   -- `remove(&k).unwrap_or_default()` …
+      let others' := st.2.map fun t => removeK t k                         -- … and its effect on the operand
+      (if !Bitmap.isEmpty nb then insertKV acc k nb else acc, others')) (first, others)).1
+
 /-- multiops.rs:155 `try_ordered_multi_op_ref` on an error-free input: results go into a fresh map -/
 def orderedMultiRef (op : List Bitmap → Bitmap) : List Treemap → Treemap
   | [] => []
@@ -299,6 +325,14 @@ def multi (op : MultiOp) (owned : Bool) (ts : List Treemap) : Treemap :=
   | .and => if owned then orderedMultiOwned o.multiAndOwn ts else orderedMultiRef o.multiAndRef ts
   | .sub => if owned then orderedMultiOwned o.multiSubOwn ts else orderedMultiRef o.multiSubRef ts
 
+/-- `multi` with the owned ordered form run step for step (`orderedMultiOwnedMirror`): what the driver executes -/
+def multiMirror (op : MultiOp) (owned : Bool) (ts : List Treemap) : Treemap :=
+  match op with
+  | .or => simpleMulti (if owned then o.multiOrOwn else o.multiOrRef) ts
+  | .xor => simpleMulti (if owned then o.multiXorOwn else o.multiXorRef) ts
+  | .and => if owned then orderedMultiOwnedMirror o.multiAndOwn ts else orderedMultiRef o.multiAndRef ts
+  | .sub => if owned then orderedMultiOwnedMirror o.multiSubOwn ts else orderedMultiRef o.multiSubRef ts
+
 /-- first error of a `Result` sequence (`collect::<Result<Vec<_>, _>>()?`, and for the ordered forms
     `next().transpose()?` followed by the same `collect` — together again the first error) -/
 def firstErr {ε α} : List (Except ε α) → Except ε (List α)
@@ -313,6 +347,12 @@ def multiTry {ε} (op : MultiOp) (owned : Bool) (items : List (Except ε Treemap
   match firstErr items with
   | .error e => .error e
   | .ok ts => .ok (multi o op owned ts)
+
+/-- `multiTry` over `multiMirror`: what the driver executes -/
+def multiTryMirror {ε} (op : MultiOp) (owned : Bool) (items : List (Except ε Treemap)) : Except ε Treemap :=
+  match firstErr items with
+  | .error e => .error e
+  | .ok ts => .ok (multiMirror o op owned ts)
 
 end Treemap
 end Roaring
